@@ -22,6 +22,7 @@ The runtime part of the property (no panic, no divergence of the real binaries) 
 import Argot.Proofs.C07Diamonds
 import Argot.Proofs.C07Visit
 import Argot.Proofs.C07Reach
+import Argot.Proofs.C07Fwd
 import Argot.Spec.C07Tables
 import Argot.Gen.T1Dispatch
 import Argot.Gen.T8Panics
@@ -183,6 +184,25 @@ set_option maxRecDepth 8000 in
 example : (hasPathCur (diamonds 3) 0 10 100).steps = 29 ∧ (hasPathFix (diamonds 3) 0 10 100).steps = 10 := by
   decide
 
+/-! ## worklist of the intra-procedural pass -/
+
+/-- **`RunForwardIterative` terminates** as soon as `ChangedOnEndBlock` answers `true` only finitely often (what a
+monotone pass over a finite universe of marks guarantees; `chg` lists the successive answers, absent = false):
+at most `1 + n·H` blocks are processed, `n` = number of blocks, `H` = number of `true` answers — whatever the
+path predicate `reach` (i.e. independently of `HasPathTo`). -/
+theorem forwardIterative_terminates (n : Nat) (reach : Nat → Nat → Bool) (chg : List Bool) (fuel : Nat)
+    (hn : 0 < n) :
+    (fwdRun n reach fuel chg [0] 0).1 ≤ 1 + n * chg.count true ∧
+    (1 + n * chg.count true < fuel → (fwdRun n reach fuel chg [0] 0).2 = true) := by
+  have h := fwdRun_pops n reach fuel chg [0] 0 (by simp) (by simp; exact hn)
+  simp only [List.length_cons, List.length_nil, Nat.zero_add] at h
+  refine ⟨h, fun hf => ?_⟩
+  cases hd : (fwdRun n reach fuel chg [0] 0).2 with
+  | true => rfl
+  | false =>
+    have := fwdRun_not_done n reach fuel chg [0] 0 hd
+    omega
+
 /-! ## worklists of the inter-procedural traversals -/
 
 /-- **Visitor worklist terminates** (taint and backtrace `addNext`, escape analysis off): whatever the
@@ -297,6 +317,7 @@ example : numNodup 3 = 16 ∧ geo 2 4 = 31 := by decide
 #print axioms hasPathCur_correct
 #print axioms hasPathFix_correct
 #print axioms hasPath_repair_same_answer
+#print axioms forwardIterative_terminates
 #print axioms visit_terminates
 #print axioms ctx_terminates
 
